@@ -125,6 +125,16 @@ def float_tie(pid):
         if rng.chance(0.25):
             k_ = rng.below(len(xs))
             xs[k_] = xs[k_] * 1000000
+        elif rng.chance(0.3):
+            # whole stream at an unusual magnitude / beyond the exact integer range of f32 and i32
+            kind = rng.choice(["e-12", "e-6", "e9", "e12", "e15", "+2^24", "+2^31", "+2^53"])
+            if kind.startswith("e"):
+                m = F(10) ** int(kind[1:])
+                xs = [x * m for x in xs]
+            else:
+                off = F(2) ** int(kind[3:]) + 1
+                xs = [x + off for x in xs]
+            reg = reg + "/" + kind
         ops = []
         for x in xs:
             ops.append(("u", 0, x))
@@ -902,10 +912,17 @@ def run_C08(rng, tier):
             reg, xs = gen_stream(rng, len(xs), positive=True, grid=1 if is_heavy(d) else 4)
         cases.append(Case.simple(d, xs, {"regime": reg, "view": name, "chain": True}))
     # starved wrappers: the inner view never delivers
-    for name in ("Sma", "Hln", "Cti", "Welford", "Drawdown", "Gte", "Rsi", "Net"):
+    for name in ALL_UNARY:
         d = mk_view(rng, name, ("Sma", 50, E))
-        reg, xs = gen_stream(rng, 12, positive=True)
+        reg, xs = gen_stream(rng, 12, positive=True, grid=1 if is_heavy(d) else 4)
         cases.append(Case(d, [("l", 0)] + [("u", 0, x) for x in xs], {"regime": "starved", "view": name}))
+        # every wrapper over an inner view that delivers from its 3rd value on; read before the first update as well
+        d = mk_view(rng, name, ("Sma", 3, E))
+        reg, xs = gen_stream(rng, 12, positive=True, grid=1 if is_heavy(d) else 4)
+        cases.append(Case(d, [("l", 0)] + [("u", 0, x) for x in xs], {"regime": reg, "view": name, "chain": True}))
+        d = mk_view(rng, name)
+        reg, xs = gen_stream(rng, 8, positive=True, grid=1 if is_heavy(d) else 4)
+        cases.append(Case(d, [("l", 0), ("l", 0)] + [("u", 0, x) for x in xs], {"regime": "read-before-first-update", "view": name}))
     run_impl(cases)
     viols = O.c08(cases, WARMUP)
     # long f64 runs: readiness never reverts, values stay finite
